@@ -371,7 +371,12 @@ int main(int argc, char** argv) {
       else if (cmd == "new") {
         int id = tk.nextl(); std::string kind = tk.next(); unsigned dim = tk.nextl(); std::string how = tk.next();
         try { Obj* o = do_new_kind(kind, dim, how, tk); put(id, o); std::cout << "res ok\n"; o->print_state(id); }
-        catch (const std::exception& e) { if (is_case_err(e)) throw; std::cout << "res exn " << exn_class(e) << "\n"; }
+        catch (const std::exception& e) {
+          if (is_case_err(e)) throw;
+          // the constructor refused its argument: the id is bound to the universe of that kind so that the case can go on
+          std::cout << "res exn " << exn_class(e) << "\n";
+          Toks none(""); Obj* o = do_new_kind(kind, dim, "universe", none); put(id, o); o->print_state(id);
+        }
       }
       else if (cmd == "copy") { int id = tk.nextl(); Obj* o = get(tk.nextl())->clone(); put(id, o); std::cout << "res ok\n"; o->print_state(id); }
       else if (cmd == "op") {
